@@ -42,17 +42,27 @@ const (
 	kChMsg                       // channel pts, channelDifference.new_messages
 	kChDelete                    // channel pts, other_updates (pts_count 1..3)
 	kChEdit                      // channel pts, other_updates
+	// Self-initiated read/delete (messages.readHistory, messages.deleteMessages,
+	// channels.deleteMessages ...): the server log position is occupied, but the
+	// client learns it ONLY through Manager.HandleAffected(channelID, pts, ptsCount),
+	// as telegram/updates/hook.AffectedHook does with the RPC result. Nothing is
+	// owed to the handler for it; a difference just covers its range.
+	kAffected   // common pts
+	kChAffected // channel pts
 )
 
 var kindNames = [...]string{"newMessage", "deleteMessages", "readHistoryInbox", "editMessage",
 	"newEncryptedMessage", "botStopped", "chatParticipant",
-	"newChannelMessage", "deleteChannelMessages", "editChannelMessage"}
+	"newChannelMessage", "deleteChannelMessages", "editChannelMessage", "affected", "channelAffected"}
 
 func (k entryKind) String() string { return kindNames[k] }
 
 // isMessage: entries a difference returns in new_messages / new_encrypted_messages
 // (everything else travels in other_updates with its real pts / qts).
 func (k entryKind) isMessage() bool { return k == kNewMsg || k == kEnc || k == kChMsg }
+
+// isAffected: position-only entries announced through HandleAffected.
+func (k entryKind) isAffected() bool { return k == kAffected || k == kChAffected }
 
 type entry struct {
 	Cls    seqClass  `json:"cls"`
@@ -155,6 +165,7 @@ type genOpts struct {
 	maxEvents int
 	natural   bool
 	late      bool // allow channels that are first seen during the run
+	affected  bool // allow self-initiated entries announced through HandleAffected
 }
 
 func genScenario(idx int, r *rand.Rand, o genOpts) *scenario {
@@ -179,6 +190,10 @@ func genScenario(idx int, r *rand.Rand, o genOpts) *scenario {
 	window := pick(0, 0, 2, 5)
 	nonMsgPct := pick(0, 25, 50, 50)
 	seqPct := pick(0, 0, 30)
+	affPct := 0
+	if o.affected {
+		affPct = pick(0, 0, 15, 30)
+	}
 	sc.SliceL = pick(0, 0, 1, 3)
 	sc.ChSliceL = pick(0, 0, 1, 3)
 	sc.ChanMode = pick(chanModeEntries, chanModeTooLong, chanModeNone)
@@ -204,6 +219,9 @@ func genScenario(idx int, r *rand.Rand, o genOpts) *scenario {
 	if nlate > 0 {
 		sc.Class += "/late1"
 	}
+	if affPct > 0 {
+		sc.Class += fmt.Sprintf("/aff%d", affPct)
+	}
 
 	nev := 4 + r.IntN(o.maxEvents-3)
 	uid := 1
@@ -225,7 +243,10 @@ func genScenario(idx int, r *rand.Rand, o genOpts) *scenario {
 				if nonMsg {
 					e.Kind = entryKind(pick(int(kDelete), int(kRead), int(kEdit)))
 				}
-				if e.Kind == kDelete {
+				if r.IntN(100) < affPct {
+					e.Kind = kAffected
+				}
+				if e.Kind == kDelete || e.Kind == kAffected {
 					e.Count = 1 + r.IntN(3)
 				}
 				if (e.Kind == kNewMsg || e.Kind == kEdit) && r.IntN(100) < unknownPct {
@@ -249,7 +270,10 @@ func genScenario(idx int, r *rand.Rand, o genOpts) *scenario {
 				if nonMsg {
 					e.Kind = entryKind(pick(int(kChDelete), int(kChEdit)))
 				}
-				if e.Kind == kChDelete {
+				if r.IntN(100) < affPct/2 {
+					e.Kind = kChAffected
+				}
+				if e.Kind == kChDelete || e.Kind == kChAffected {
 					e.Count = 1 + r.IntN(3)
 				}
 				chPts[e.Ch] += e.Count
